@@ -420,11 +420,17 @@ class C04(vlib.Driver):
         randomise(m, 1000 + case["seed"])
         obs = {"init": snap(m), "steps": []}
         mut = None
+        extreme_now = False
         for oi, op in enumerate(case["ops"]):
             np.random.seed(case["seed"] * 131 + oi)
             torch.manual_seed(case["seed"] * 131 + oi)
             arch_b = canon(m.init_dict)
-            y_b = outputs(m, x)
+            if extreme_now:
+                # weights near overflow give inf/nan activations (sampling heads even refuse them): only the
+                # bit-exact parameter comparison is meaningful until the weights are re-randomised
+                y_b = torch.zeros(1)
+            else:
+                y_b = outputs(m, x)
             p_b, b_b = snap(m), snap_buffers(m)
             ties_b, struct_b = ties(m), structure(m)
             rec = {"op": op[0]}
@@ -504,11 +510,17 @@ class C04(vlib.Driver):
                 # the module was in evaluation mode before the operation: what does the object compute as it is now?
                 rec["all_eval"] = all_eval(m)
                 rec["training"] = bool(m.training)
-                y_raw = B.forward(m, x, mode="asis")
+                if op[0] == "extreme":
+                    extreme_now = True
+                elif op[0] == "rand":
+                    extreme_now = False
+                y_raw = B.forward(m, x, mode="asis") if not extreme_now else torch.zeros(1)
                 n_raw = y_raw.numel()
                 rec["asis_equal"] = bool(y_b[:n_raw].shape == y_raw.reshape(-1).shape
                                          and torch.allclose(y_raw.reshape(-1), y_b[:n_raw], rtol=1e-5, atol=1e-6, equal_nan=True))
-                y_a = outputs(m, x)
+                y_a = outputs(m, x) if not extreme_now else torch.zeros(1)
+                if extreme_now:
+                    m.eval()
             except Exception as e:
                 rec["raised"] = f"{type(e).__name__}: {str(e)[:200]}"
                 rec["raised_in"] = ["forward"]
